@@ -75,6 +75,9 @@ func (h *harness) mediasArg() string {
 		}
 		ms = append(ms, strings.Join(fs, ","))
 	}
+	if h.backMedia != nil {
+		ms = append(ms, fmt.Sprintf("%d:%d", backPT, h.backSSRC)) // the back channel: set up by some readers, never written by the stream
+	}
 	return strings.Join(ms, ";")
 }
 
@@ -130,10 +133,28 @@ func (h *harness) buildCase(name string) corr.Case {
 						}
 						add(key, fmt.Sprintf("pipe setup %d %d %s", r, m, req), fmt.Sprintf("ch %d", ch))
 					}
+					h.backSetupOp(rd, key, add)
 				}
 				add(key, fmt.Sprintf("pipe play %d", r), "ok")
 			case "replay":
 				add(float64(ob.cd), fmt.Sprintf("pipe replay %d", r), "ok")
+			case "refused":
+				// a refused PLAY / PAUSE is no event at all
+				if ob.first {
+					for k, m := range rd.spec.Medias {
+						ch := 2 * k
+						if k < len(rd.chans) && rd.chans[k] >= 0 {
+							ch = rd.chans[k]
+						}
+						req := "-"
+						if !rd.udp {
+							req = fmt.Sprint(2 * k)
+						}
+						add(float64(ob.cs), fmt.Sprintf("pipe setup %d %d %s", r, m, req), fmt.Sprintf("ch %d", ch))
+					}
+					h.backSetupOp(rd, float64(ob.cs), add)
+					firstPlay = false
+				}
 			case "pause":
 				cs := h.cands(ob.cs, ob.cd)
 				k1 := float64(ob.cs)
@@ -251,7 +272,7 @@ func (h *harness) buildCase(name string) corr.Case {
 			fan = "."
 		}
 		add(float64(w.wb), fmt.Sprintf("pipe write %d %d %d %d %d %d %s %s", p.media, p.pt, p.seq, p.ts, mk, p.ssrcIn,
-			corr.Hex(digest(genPayload(sc.Seed, h.pwid[j], p.size))), fan), fan)
+			corr.Hex(pktDigest(expectedPacket(sc, h.pwid[j], p))), fan), fan)
 	}
 	sort.SliceStable(items, func(i, j int) bool {
 		if items[i].key != items[j].key {
@@ -284,6 +305,23 @@ func (h *harness) buildCase(name string) corr.Case {
 		}
 	}
 	return cs
+}
+
+// backSetupOp: the reader's SETUP of the back channel media (the last media of the model's description).
+func (h *harness) backSetupOp(rd *reader, key float64, add func(float64, string, string)) {
+	if !rd.spec.Back || h.backMedia == nil {
+		return
+	}
+	k := len(rd.spec.Medias)
+	ch := 2 * k
+	if k < len(rd.chans) && rd.chans[k] >= 0 {
+		ch = rd.chans[k]
+	}
+	req := "-"
+	if !rd.udp {
+		req = fmt.Sprint(2 * k)
+	}
+	add(key, fmt.Sprintf("pipe setup %d %d %s", rd.idx, len(h.sc.Medias), req), fmt.Sprintf("ch %d", ch))
 }
 
 // ---------------------------------------------------------------------------------------------
@@ -590,6 +628,40 @@ func (h *harness) checkProperty(c *corr.Ctx) {
 		if !rd.udp && len(rd.decodeErrs) > 0 {
 			viol("every frame of a reliable transport is decoded", "c01-decode-error", fmt.Sprintf("%s: %v", who, rd.decodeErrs))
 		}
+		// back channel (client → server inside the PLAY session): identical packets, in order, at most once;
+		// on reliable transports every accepted packet (the reader waits for each burst before it goes on)
+		if rd.spec.Back {
+			var acc []uint16
+			for i, o := range rd.backOut {
+				if o == 'a' {
+					acc = append(acc, uint16(1000+i))
+				}
+			}
+			prev := -1
+			for i, br := range rd.backRecs {
+				if !br.ok {
+					viol("identical payload, marker, timestamp, sequence number and payload type", "c01-back-fields",
+						fmt.Sprintf("%s back channel: packet %d (seq %d) differs from what the reader wrote", who, i, br.seq))
+				}
+				if int(br.seq) <= prev {
+					viol("packets arrive in the order written and at most once", "c01-back-order",
+						fmt.Sprintf("%s back channel: seq %d after %d", who, br.seq, prev))
+				}
+				prev = int(br.seq)
+			}
+			if !rd.udp {
+				for i := range acc {
+					if i >= len(rd.backRecs) || rd.backRecs[i].seq != acc[i] {
+						viol("over TCP-based transports no packet is missing unless a write-queue-full error was returned to the writer", "c01-back-missing",
+							fmt.Sprintf("%s back channel: %d packets accepted by WritePacketRTP, the server session received %d (first difference at %d)", who, len(acc), len(rd.backRecs), i))
+						break
+					}
+				}
+			} else if sent := int(rd.backSent.Load()); sent < len(acc) {
+				viol("a packet accepted by WritePacketRTP is sent", "c01-back-not-sent",
+					fmt.Sprintf("%s back channel: %d packets accepted by WritePacketRTP, %d datagrams left the client's socket", who, len(acc), sent))
+			}
+		}
 		// buffers handed to the callback are not reused
 		for i, rc := range rd.recs {
 			if rc.alias != nil && rc.wid >= 0 && rc.why == "" {
@@ -667,23 +739,82 @@ func (h *harness) checkRelay(c *corr.Ctx) {
 		}
 		got = append(got, rc.wid)
 	}
-	if sc.Relay == "tcp" {
-		var acc []int
-		for wid, o := range h.pubOut {
+	if sc.Relay == "udp" && h.rawPub == nil {
+		accepted := 0
+		for _, o := range h.pubOut {
 			if o == 'a' {
-				acc = append(acc, wid)
+				accepted++
 			}
 		}
-		for i := 0; i < len(acc) && i < len(got); i++ {
-			if acc[i] != got[i] {
-				viol("over TCP-based transports no packet is missing unless a write-queue-full error was returned to the writer", "c01-relay-missing",
-					fmt.Sprintf("%s: server callback %d is write %d, the %d-th accepted write is %d", who, i, got[i], i, acc[i]))
-				break
-			}
+		qs := sc.PubCap
+		if qs == 0 {
+			qs = 256
 		}
-		if len(got) < len(acc) {
-			viol("over TCP-based transports no packet is missing unless a write-queue-full error was returned to the writer", "c01-relay-missing-tail",
-				fmt.Sprintf("%s: %d writes were accepted, the server session received %d", who, len(acc), len(got)))
+		_ = accepted
+		// between two refused PAUSEs at most one queue is forfeited (Client.Pause destroys the write queue
+		// before it asks); after the last one everything accepted leaves the socket
+		lo, sentLo := 0, 0
+		for b := 0; b <= len(h.pubPauses); b++ {
+			hi, sentHi, last := len(h.pubOut), int(h.pubSent.Load()), true
+			if b < len(h.pubPauses) {
+				hi, sentHi, last = h.pubPauses[b].at, h.pubPauses[b].sent, false
+			}
+			acc := 0
+			for wid := lo; wid < hi; wid++ {
+				if h.pubOut[wid] == 'a' {
+					acc++
+				}
+			}
+			if missing := acc - (sentHi - sentLo); (last && missing > 0) || missing > qs {
+				viol("a packet accepted by WritePacketRTP is sent", "c01-relay-not-sent",
+					fmt.Sprintf("%s: of the %d writes accepted in [%d, %d) %d datagrams left the client's sockets (client queue %d, refused PAUSE at the end of the range: %v)",
+						who, acc, lo, hi, sentHi-sentLo, qs, !last))
+			}
+			lo, sentLo = hi, sentHi
+		}
+	}
+	if sc.Relay == "tcp" {
+		// between two (refused) PAUSEs of the publisher: what the server received is a prefix of what was
+		// accepted, short by at most the queue (Client.Pause destroys the write queue before it asks);
+		// after the last one: everything
+		qs := sc.PubCap
+		if qs == 0 {
+			qs = 256
+		}
+		bounds := []int{0}
+		for _, pp := range h.pubPauses {
+			bounds = append(bounds, pp.at)
+		}
+		bounds = append(bounds, len(h.pubOut))
+		gi := 0
+		for b := 0; b+1 < len(bounds); b++ {
+			var acc []int
+			for wid := bounds[b]; wid < bounds[b+1]; wid++ {
+				if h.pubOut[wid] == 'a' {
+					acc = append(acc, wid)
+				}
+			}
+			n := 0
+			for gi < len(got) && got[gi] < bounds[b+1] {
+				if n >= len(acc) || acc[n] != got[gi] {
+					exp := -1
+					if n < len(acc) {
+						exp = acc[n]
+					}
+					viol("over TCP-based transports no packet is missing unless a write-queue-full error was returned to the writer", "c01-relay-missing",
+						fmt.Sprintf("%s: server callback %d is write %d, the next accepted write is %d", who, gi, got[gi], exp))
+					return
+				}
+				n++
+				gi++
+			}
+			missing := len(acc) - n
+			last := b+2 == len(bounds)
+			if (last && missing > 0) || missing > qs {
+				viol("over TCP-based transports no packet is missing unless a write-queue-full error was returned to the writer", "c01-relay-missing-tail",
+					fmt.Sprintf("%s: of the %d writes accepted in [%d, %d) the server session received %d (client queue %d, refused PAUSE at the end of the range: %v)",
+						who, len(acc), bounds[b], bounds[b+1], n, qs, !last))
+			}
 		}
 	}
 }
@@ -751,7 +882,29 @@ func (h *harness) buildPubCase(name string) corr.Case {
 			mk = 1
 		}
 		add(float64(h.pubStamp[wid]), fmt.Sprintf("pub write %d %d %d %d %d %d %s %c", p.media, p.pt, p.seq, p.ts, mk, p.ssrcIn,
-			corr.Hex(digest(genPayload(sc.Seed, wid, p.size))), o), string(o))
+			corr.Hex(pktDigest(expectedPacket(sc, wid, p))), o), string(o))
+	}
+	// a refused PAUSE of the publisher: Client.Pause destroys the write queue (what is queued is dropped),
+	// asks, and on the refusal builds a new queue and starts it - for the model: the queue is discarded and
+	// the hop is playing again at once
+	for _, pp := range h.pubPauses {
+		key := float64(pp.stamp)
+		if sc.Relay == "udp" {
+			add(key, "pub pstart 0 -", "ok")
+			add(key, "pub pcl 0", "ok")
+			add(key, "pub pinact 0", "ok")
+		} else {
+			k := 0
+			for _, rc := range h.relayRecs {
+				if rc.wid >= 0 && rc.wid < pp.at {
+					k++
+				}
+			}
+			add(key, fmt.Sprintf("pub pstart 0 %d", k), "ok")
+			add(key, "pub pcl 0", "ok")
+			add(key, "pub pinact 0", fmt.Sprintf("ok %d", k))
+		}
+		add(key, "pub play 0", "ok")
 	}
 	// the model numbers writes by position among the `write` operations
 	pos := map[int]int{}
